@@ -2,6 +2,7 @@
 From Coq Require Import List Arith Permutation NArith PArith FMapPositive.
 From OxiVerif Require Import Mgr.SortOrder Mgr.SortOrderProofs.
 From OxiVerif Require Import DD.Table DD.TableProofs Mgr.LevelSwap Mgr.LevelSwapBase Mgr.LevelSwapSem Mgr.LevelSwapProofs Mgr.LevelSwapOrder.
+From OxiVerif Require Import Mgr.LevelSwapC Mgr.LevelSwapCProofs Mgr.LevelSwapCOrder.
 Import ListNotations.
 
 (** ** sort_order: from the requested relative order to a target permutation *)
@@ -266,3 +267,129 @@ Theorem C08_level_swap_example :
   /\ NoDup [2; 1; 0] /\ Forall (fun v => v < nlevels ex_swap) [2; 1; 0].
 Proof. exact ex_swap_all. Qed.
 Print Assumptions C08_level_swap_example.
+
+(** ** the same for BCDDs (complement edges; model: Mgr/LevelSwapC.v) *)
+
+Theorem C08_bcdd_level_swap_wf : forall s i,
+  WF s -> s_kind s = KBcdd -> S i < nlevels s -> WF (level_swap_c s i).
+Proof. exact level_swap_wf_c. Qed.
+Print Assumptions C08_bcdd_level_swap_wf.
+
+Theorem C08_bcdd_level_swap_maps : forall s i, S i < nlevels s ->
+  s_l2v (level_swap_c s i) = swap_adj i (s_l2v s)
+  /\ s_v2l (level_swap_c s i) = map (swap_idx i) (s_v2l s)
+  /\ (forall l, nth_error (s_l2v (level_swap_c s i)) l = nth_error (s_l2v s) (swap_idx i l))
+  /\ (forall v, nth_error (s_v2l (level_swap_c s i)) v = option_map (swap_idx i) (nth_error (s_v2l s) v)).
+Proof. exact level_swap_maps_c. Qed.
+Print Assumptions C08_bcdd_level_swap_maps.
+
+Theorem C08_bcdd_level_swap_handles : forall s i,
+  WF s -> s_kind s = KBcdd -> S i < nlevels s ->
+  s_handles (level_swap_c s i) = s_handles s
+  /\ forall h, In h (s_handles s) -> ref_ok (level_swap_c s i) (eref (snd h)).
+Proof.
+  exact (fun s i H Hk Hi => conj (level_swap_handles_c s i) (level_swap_handle_ok_c s i H Hk Hi)).
+Qed.
+Print Assumptions C08_bcdd_level_swap_handles.
+
+Theorem C08_bcdd_level_swap_untouched : forall s i,
+  WF s -> s_kind s = KBcdd -> S i < nlevels s ->
+  forall id nd, nlevel nd <> i -> nlevel nd <> S i ->
+    (find_node s id = Some nd <-> find_node (level_swap_c s i) id = Some nd).
+Proof.
+  exact (fun s i H Hk Hi id nd A B =>
+           conj (fun E => level_swap_untouched_c s i H Hk Hi id nd E A B)
+                (fun E => level_swap_untouched_rev_c s i H Hk Hi id nd E A B)).
+Qed.
+Print Assumptions C08_bcdd_level_swap_untouched.
+
+Theorem C08_bcdd_level_swap_removed_only : forall s i,
+  WF s -> s_kind s = KBcdd -> S i < nlevels s ->
+  forall id nd, find_node s id = Some nd -> find_node (level_swap_c s i) id = None ->
+    nlevel nd = S i /\ In id (dropped_children s i)
+    /\ referenced (swap_nodes_c s i) (s_handles s) id = false.
+Proof. exact level_swap_removed_only_c. Qed.
+Print Assumptions C08_bcdd_level_swap_removed_only.
+
+Theorem C08_bcdd_level_swap_child_ok : forall s i,
+  WF s -> s_kind s = KBcdd -> S i < nlevels s ->
+  forall id nd e, find_node (level_swap_c s i) id = Some nd -> In e (nchildren nd) ->
+    ref_ok (level_swap_c s i) (eref e).
+Proof. exact level_swap_child_ok_c. Qed.
+Print Assumptions C08_bcdd_level_swap_child_ok.
+
+Theorem C08_bcdd_level_swap_sem_levels : forall s i,
+  WF s -> s_kind s = KBcdd -> S i < nlevels s ->
+  forall e c, ref_ok s (eref e) -> ref_ok (level_swap_c s i) (eref e) -> choice_ok s c ->
+    sem_edge (level_swap_c s i) e (swap_choice i c) = sem_edge s e c.
+Proof. exact level_swap_sem_levels_c. Qed.
+Print Assumptions C08_bcdd_level_swap_sem_levels.
+
+(* headline for BCDDs: the Boolean function over the VARIABLES is unchanged *)
+Theorem C08_bcdd_level_swap_sem_vars : forall s i,
+  WF s -> s_kind s = KBcdd -> S i < nlevels s ->
+  forall e (a : nat -> bool), ref_ok s (eref e) -> ref_ok (level_swap_c s i) (eref e) ->
+    eval_vars (level_swap_c s i) e a = eval_vars s e a.
+Proof. exact level_swap_sem_vars_c. Qed.
+Print Assumptions C08_bcdd_level_swap_sem_vars.
+
+Theorem C08_bcdd_level_swap_handles_vars : forall s i,
+  WF s -> s_kind s = KBcdd -> S i < nlevels s ->
+  forall h (a : nat -> bool), In h (s_handles s) ->
+    eval_vars (level_swap_c s i) (snd h) a = eval_vars s (snd h) a
+    /\ exists v, eval_vars s (snd h) a = Some v.
+Proof. exact level_swap_handles_vars_c. Qed.
+Print Assumptions C08_bcdd_level_swap_handles_vars.
+
+Theorem C08_bcdd_swaps_fold : forall sw s,
+  WF s -> s_kind s = KBcdd -> Forall (fun k => S k < nlevels s) sw ->
+  let s' := fold_left level_swap_c sw s in
+  WF s' /\ s_kind s' = s_kind s /\ nlevels s' = nlevels s /\ s_handles s' = s_handles s
+  /\ s_l2v s' = replay sw (s_l2v s)
+  /\ (forall h a, In h (s_handles s) ->
+        eval_vars s' (snd h) a = eval_vars s (snd h) a /\ exists v, eval_vars s (snd h) a = Some v).
+Proof. exact swaps_fold_c. Qed.
+Print Assumptions C08_bcdd_swaps_fold.
+
+Theorem C08_bcdd_set_var_order_model_correct : forall s order,
+  WF s -> s_kind s = KBcdd -> NoDup order -> Forall (fun v => v < nlevels s) order ->
+  let s' := set_var_order_model_c s order in
+  let target := sort_order (nlevels s) (map (fun v => nth v (s_v2l s) 0) order) in
+  WF s' /\ s_kind s' = s_kind s /\ nlevels s' = nlevels s /\ s_handles s' = s_handles s
+  /\ (forall h a, In h (s_handles s) ->
+        eval_vars s' (snd h) a = eval_vars s (snd h) a /\ exists v, eval_vars s (snd h) a = Some v)
+  /\ (forall v, v < nlevels s -> nth v (s_v2l s') 0 = nth (nth v (s_v2l s) 0) target 0)
+  /\ length (snd (bubble_sort target)) = inv target.
+Proof. exact set_var_order_model_correct_c. Qed.
+Print Assumptions C08_bcdd_set_var_order_model_correct.
+
+Theorem C08_bcdd_set_var_order_model_respects : forall s order,
+  WF s -> s_kind s = KBcdd -> NoDup order -> Forall (fun v => v < nlevels s) order ->
+  forall a b, a < b < length order ->
+    nth (nth a order 0) (s_v2l (set_var_order_model_c s order)) 0
+    < nth (nth b order 0) (s_v2l (set_var_order_model_c s order)) 0.
+Proof. exact set_var_order_model_respects_c. Qed.
+Print Assumptions C08_bcdd_set_var_order_model_respects.
+
+Theorem C08_bcdd_set_var_order_model_canonical : forall s order,
+  WF s -> s_kind s = KBcdd -> NoDup order -> Forall (fun v => v < nlevels s) order ->
+  terms_kind s ->
+  forall h1 h2, In h1 (s_handles s) -> In h2 (s_handles s) ->
+    (snd h1 = snd h2 <->
+     forall c, choice_ok (set_var_order_model_c s order) c ->
+       sem_edge (set_var_order_model_c s order) (snd h1) c = sem_edge (set_var_order_model_c s order) (snd h2) c).
+Proof. exact set_var_order_model_canonical_c. Qed.
+Print Assumptions C08_bcdd_set_var_order_model_canonical.
+
+(* hypotheses satisfiable; the swap of the example takes the branch in which the rebuilt child is a
+   node of the old upper level that has just moved down, reached through a COMPLEMENTED edge *)
+Theorem C08_bcdd_level_swap_example :
+  WF ex_swap_c /\ s_kind ex_swap_c = KBcdd /\ terms_kind ex_swap_c /\ 1 < nlevels ex_swap_c
+  /\ dep_ids ex_swap_c 0 = [4]%positive
+  /\ find_node (level_swap_c ex_swap_c 0) 4 = Some (mkNode 0 [ex_t; mkEdge (RN 2) true] 0 1)
+  /\ find_node (level_swap_c ex_swap_c 0) 2 = Some (mkNode 1 [ex_t; ex_f] 1 1)
+  /\ find_node (level_swap_c ex_swap_c 0) 1 = None
+  /\ s_v2l (set_var_order_model_c ex_swap_c [2; 1; 0]) = [2; 1; 0]
+  /\ wf_b (set_var_order_model_c ex_swap_c [2; 1; 0]) = true.
+Proof. exact ex_swap_c_all. Qed.
+Print Assumptions C08_bcdd_level_swap_example.
